@@ -276,7 +276,8 @@ Proof. apply digits_wf_value. apply dec_of_N_digits. Qed.
 
 Lemma host_value_wf u : wf_url u = true -> wf_value (host_value u) = true.
 Proof.
-  unfold wf_url. intros H. apply andb_true_iff in H as [H _]. apply andb_true_iff in H as [H Hv].
+  unfold wf_url. intros H. apply andb_true_iff in H as [H _]. apply andb_true_iff in H as [H _].
+  apply andb_true_iff in H as [H _]. apply andb_true_iff in H as [H Hv].
   apply andb_true_iff in H as [Ht _]. unfold host_value.
   destruct (u_port u) as [p|]; [|now rewrite app_nil_r].
   set (h := opt_bytes (u_hostname u)) in *.
@@ -356,7 +357,8 @@ Proof.
   rewrite Hb. unfold forwarded.
   apply ref_parse_pkt.
   - exact Hm.
-  - unfold wf_url in Hu. now apply andb_true_iff in Hu as [_ Hu].
+  - unfold wf_url in Hu. apply andb_true_iff in Hu as [Hu _]. apply andb_true_iff in Hu as [Hu _].
+    now apply andb_true_iff in Hu as [_ Hu].
   - exact Hv.
   - apply fix_content_length_wf, rewrite_host_wf; assumption.
 Qed.
@@ -401,6 +403,14 @@ Proof.
   intros Hin. apply In_nth_error in Hin as [n Hn]. exists n. unfold random_choice.
   assert (n < length l)%nat by (apply nth_error_Some; congruence).
   rewrite Nat.mod_small by assumption. now rewrite Hn.
+Qed.
+
+Lemma url_str_ok u : wf_url u = true -> url_str u = Ok tt.
+Proof.
+  unfold wf_url. intros H. apply andb_true_iff in H as [H H6]. apply andb_true_iff in H as [H H5].
+  apply andb_true_iff in H as [H _]. apply andb_true_iff in H as [H _]. apply andb_true_iff in H as [_ H2].
+  unfold url_str, text_. rewrite H2, H5, H6.
+  destruct (opt_truthy (u_scheme u)), (opt_truthy (u_hostname u)), (opt_truthy (u_remainder u)); reflexivity.
 Qed.
 
 (* ------------------------------------------------------------------ routing *)
@@ -492,6 +502,7 @@ Section RoutingFacts.
     intros Hc Hu Hreq Hd.
     destruct (build_forwarded cfg u req Hreq Hu Hd) as (wire & Hb & Hp).
     pose proof Hu as Hu'. unfold wf_url in Hu'. apply andb_true_iff in Hu' as [Hu' _].
+    apply andb_true_iff in Hu' as [Hu' _]. apply andb_true_iff in Hu' as [Hu' _].
     apply andb_true_iff in Hu' as [Hu' _]. apply andb_true_iff in Hu' as [Ht Hutf].
     destruct (u_hostname u) as [h|] eqn:Eh; [|discriminate]. cbn [opt_bytes opt_truthy] in *.
     exists h, wire. unfold connect_and_forward. rewrite Hc, Eh. cbn [opt_truthy opt_bytes]. rewrite Ht. cbn [negb].
@@ -536,7 +547,7 @@ Section RoutingFacts.
           destruct (scheme_is u HTTPS_PROTO);
             destruct (build _ _ _ _); intros H; inversion H; subst; reflexivity. }
         rewrite Hrs. reflexivity.
-      + rewrite Hsel. fold st1. rewrite Ecaf.
+      + rewrite Hsel, (url_str_ok u Hu). fold st1. rewrite Ecaf.
         assert (Hrs : route_set st' = true).
         { revert Ecaf. unfold connect_and_forward. cbn [choice st1 with_choice]. rewrite Eh. cbn [opt_truthy opt_bytes].
           destruct (truthy h); cbn [negb]; [|intros H; inversion H; subst; reflexivity].
@@ -625,7 +636,8 @@ Section RoutingFacts2.
           -- exists r, u'. split; [now right|]. split; assumption.
         * intros Hn. destruct (E6 Hn) as [Hx _]. discriminate.
       + destruct (h req) as [[u|b|a]|e] eqn:Eh; [| | |discriminate].
-        * destruct (IH _ _ _ _ _ _ _ Hnc' H) as (E1 & E2 & E3 & E4 & E5 & E6).
+        * destruct (url_str u); [|discriminate].
+          destruct (IH _ _ _ _ _ _ _ Hnc' H) as (E1 & E2 & E3 & E4 & E5 & E6).
           cbn [with_choice connect_log wrap_log upstream_ route_set choice] in *.
           do 4 (split; [assumption|]). split.
           -- intros Hn. right. destruct (E5 Hn) as [[_ Ec]|(r & u' & Hin & Hof & Ec)].
